@@ -34,10 +34,12 @@ Step ==
                 k3 == P("K3", ~(r.c \in {"ip-hdr", "ip-opt", "l4"}) \/ (r.udp = 0 /\ ~tcpChanged /\ ks = {}))
                 \* a corrupted solicitation / query draws no advertisement / report either
                 k3q == P("K3", ~(IsQuery(r) /\ r.c \in {"ip-hdr", "l4"}) \/ Kinds(r.out) \cap {"ndisc", "mld", "igmp"} = {})
+                \* a solicitation for somebody else's address is not addressed to the interface whatever group it was sent to
+                i1n == P("I1", r.p # "ns-other" \/ "ndisc" \notin Kinds(r.out))
                 k4 == P("K4", ~(r.c = "udp0" /\ r.v = 6) \/ (r.udp = 0 /\ ks = {}))
                 k2 == P("K2", \A i \in 1..Len(r.out) : "wf" \notin DOMAIN r.out[i] \/ r.out[i].wf)
                 e3 == P("E3", \A i \in 1..Len(r.out) : "src_own" \notin DOMAIN r.out[i] \/ r.out[i].kind \in {"ndisc", "mld", "igmp"} \/ r.out[i].src_own)
-            IN /\ viol' = IF Len(viol) >= 60 THEN viol ELSE viol \o i1 \o i2 \o i3 \o i4 \o i5 \o k3 \o k3q \o k4 \o k2 \o e3
+            IN /\ viol' = IF Len(viol) >= 60 THEN viol ELSE viol \o i1 \o i1n \o i2 \o i3 \o i4 \o i5 \o k3 \o k3q \o k4 \o k2 \o e3
                /\ hits' = [hits EXCEPT !["I1"] = @ + (IF Addressed(r) THEN 0 ELSE 1), !["I2"] = @ + (IF r.udp > 0 \/ tcpChanged THEN 1 ELSE 0),
                                        !["I3"] = @ + (IF UnicastDst(r) /\ UnicastSrc(r) THEN 0 ELSE 1), !["I4"] = @ + (IF IsError(r) THEN 1 ELSE 0),
                                        !["I5"] = @ + (IF IsTcp(r) /\ ~UnicastDst(r) THEN 1 ELSE 0), !["K3"] = @ + (IF r.c \in {"ip-hdr", "ip-opt", "l4"} THEN 1 ELSE 0),
